@@ -44,6 +44,9 @@ STRUCTS = [
     R("S15", [F("many_v", ty="Vec<Opq>", multiple=True, rename="x"), F("b_w", with_="path", default="fn"),
               F("c_o", ty="Option<Opq>"), F("d_e", with_="closure", and_then="and_then")],
       rename_all="camelCase", default="Default"),
+    # a lenient receiver that also has a flatten member: unknown names go to the flatten member, they are not dropped
+    R("S16i", [F("p"), F("q", default="Default")]),
+    R("S16", [F("a"), F("fl", ty="S16i", flatten=True)], allow_unknown=True),
 ]
 
 BY_NAME = {r["name"]: r for r in STRUCTS}
